@@ -218,8 +218,27 @@ func (e *Engine) sleepOf(i int) string {
 // robustPathModel asks for a model of the current path condition that survives a real clock:
 // every recorded time comparison holds with slack H and consecutive readings are close together.
 func (e *Engine) robustPathModel() (Cex, bool) {
-	for _, H := range []string{"3600000000000", "60000000000", "1000000000", "1000000"} {
+	type try struct {
+		H          string
+		shortSleep bool
+	}
+	var tries []try
+	for _, short := range []bool{true, false} { // prefer witnesses whose vf.Sleep waits a replay can afford
+		if short && len(e.sleepDur) == 0 {
+			continue
+		}
+		for _, H := range []string{"3600000000000", "60000000000", "1000000000", "1000000"} {
+			tries = append(tries, try{H, short})
+		}
+	}
+	for _, t := range tries {
+		H := t.H
 		e.S.Send("(push)")
+		if t.shortSleep {
+			for _, d := range e.sleepDur {
+				e.S.Send("(assert (<= " + d + " 400000000))")
+			}
+		}
 		for _, r := range e.robust {
 			e.S.Send("(assert " + strings.ReplaceAll(r, "@H", H) + ")")
 		}
